@@ -1372,7 +1372,7 @@ UNSUPPORTED_KINDS = ["rank5", "rank0", "batch", "big_stride", "big_kernel", "int
                      "big_dim", "no_quant", "dilation", "int16_pool", "bool", "per_axis_fc", "pool_stride4", "dw_stride4",
                      "dyn_reshape", "dyn_pad", "dyn_mean", "dyn_transpose", "dyn_slice", "dyn_resize", "dyn_split", "dyn_splitv",
                      "tconv_s3", "fc_dynw", "ew_widen16", "ew_widen32", "ew_narrow", "pad_shared_tensor", "pad_shared_buffer",
-                     "reshape_requant", "reshape_5d", "squeeze_requant"]
+                     "reshape_requant", "reshape_5d", "squeeze_requant", "custom_multi_out"]
 
 
 def fam_unsupported(rng, kind=None):
@@ -1405,6 +1405,18 @@ def fam_unsupported(rng, kind=None):
     elif kind == "big_kernel":
         x = _inp(net, rng, [1, 70, 70, 2], dt)
         y = conv2d(net, rng, x, 2, (rng.choice([65, 8]), rng.choice([65, 9])), (1, 1), (1, 1), "SAME")
+    elif kind == "custom_multi_out":
+        # a third-party operator with several outputs between NPU operators: the later outputs are read by NPU operators
+        shp = [1, rng.choice([4, 6]), rng.choice([4, 6]), rng.choice([4, 8])]
+        x = _inp(net, rng, shp, dt)
+        a_ = unary(net, rng, "RELU", x) if rng.random() < 0.7 else elementwise(net, rng, "ADD", x, const_like(net, rng, shp, dt))
+        nout = rng.choice([2, 2, 3])
+        outs_ = [net.tensor(list(shp), dt, a_.scale, a_.zp, name="custom_out%d" % k_) for k_ in range(nout)]
+        net.op("CUSTOM", [a_], outs_, custom_code="VerifMultiOutOp", custom_options=b"\x01\x02")
+        pick = rng.randrange(1, nout)
+        y = elementwise(net, rng, "ADD", outs_[pick], const_like(net, rng, shp, dt))
+        if rng.random() < 0.5:
+            net.output(unary(net, rng, "RELU", outs_[0]))
     elif kind in ("reshape_requant", "reshape_5d", "squeeze_requant"):
         # a memory-only operator outside its constraints (output quantised differently from the input / a tensor of rank 5)
         # between operators the NPU runs: it must stay a CPU operator of its own
